@@ -81,6 +81,10 @@ def one(ctx, rng, xr, utils):
     cls = str(rng.choice(["noise", "multimodal", "plateau", "single_bin", "constant", "zeros"]))
     A, _ = gen.stack_spectra(rng, f, th, lsizes, cls=cls, distinct=False)
     dt = str(rng.choice(["float64", "float32"]))
+    if rng.random() < 0.08:
+        # counts / digitised densities held as integers: the window means are real numbers all the same
+        dt = str(rng.choice(["int64", "int32", "uint16"]))
+        A = np.round(A / max(float(np.abs(A).max()), 1e-300) * float(rng.choice([7, 100, 1000])))
     x = gen.make_da(A, f, th, lnames, lsizes, dtype=dt)
     stored = str(rng.choice(["sorted", "rolled", "reversed", "shuffled"])) if nd > 1 else "sorted"
     if stored == "rolled":
